@@ -998,7 +998,7 @@ class Interp:
             n = slen(it)
 
         def havoc():
-            st["_i"] = core.fresh_int(c.fresh_name("_i"))
+            st["_i"] = core.fresh_int(c.fresh_name("_i"), lo=0)
             c.assume(as_bool_term(band(st["_i"] >= 0, st["_i"] <= n)))
 
         def nxt():
